@@ -475,9 +475,10 @@ func parseRequest(ctx context.Context, isStreaming bool, fn *parser.Function, tr
 		},
 	}
 	reqField := &FieldDescriptor{
-		name: reqAst.Name,
-		id:   FieldID(reqAst.ID),
-		typ:  reqType,
+		name:  reqAst.Name,
+		alias: reqAst.Name,
+		id:    FieldID(reqAst.ID),
+		typ:   reqType,
 	}
 	wrappedTyDsc.Struct().ids.Set(int32(reqAst.ID), unsafe.Pointer(reqField))
 	wrappedTyDsc.Struct().names.Set(reqAst.Name, unsafe.Pointer(reqField))
